@@ -214,15 +214,18 @@ func runC17sched(cfg config, rep *hx.Report) {
 					map[string]any{"cfg": fmt.Sprintf("%+v", c), "streams": streams, "sizes": fmt.Sprint(sizes), "history": order, "seed": cfg.seed, "usage_history": h})
 			}
 		}
-		for step := 0; step < 6*nfiles+12; step++ {
+		// every refusal is followed by a completion, so a run takes at most 3 moves per
+		// file (begin, refusal, completion): the bound below is never the reason a run stops
+		mustDone := false
+		for step := 0; step < 4*nfiles+8; step++ {
 			doNext := rng.Intn(3) > 0
 			if len(active) == 0 {
 				doNext = true
+			} else if len(active) >= streams || mustDone {
+				doNext = false
 			}
+			mustDone = false
 			if doNext {
-				if len(active) >= streams {
-					continue
-				}
 				clock += int64(rng.Pick(1, 1000, 1_000_000, 6_000_000_000))
 				key, ok := s.Next(c17time(clock))
 				tr = append(tr, fmt.Sprintf("(Sched.Next %s 0%%nat, %s, %s)", hx.Z(clock), c17nextOut(key, ok), c17snap(s)))
@@ -231,7 +234,12 @@ func runC17sched(cfg config, rep *hx.Report) {
 					order = append(order, "next=none")
 					if len(begun) < nfiles && len(active) == 0 {
 						fail("starved", fmt.Sprintf("Next refused although %d file(s) were never begun and nothing is active", nfiles-len(begun)))
+						break
 					}
+					if len(begun) == nfiles && len(active) == 0 {
+						break
+					}
+					mustDone = true
 					continue
 				}
 				k := int(c17keyNum(key))
